@@ -1467,7 +1467,7 @@ class C08(ExpectSpec):
                   'reader renders to its element and then the rest of the reader from the session it left; the quote block is a container: its '
                   'element wraps whatever the nested document render makes of its content), C08_quiet_after_code, C08_code_then_paragraph, '
                   'C08_header_then_paragraph, C08_quote_paragraph_document (a quote block holding any paragraph line, from the text through the '
-                  'reader, the nested render being the document renderer itself); division blocks, HTML blocks and definitions are decided by '
+                  'reader, the nested render being the document renderer itself), C08_division_block_then_rest / C08_division_paragraph_document (a division block without class is omitted: the nested render alone); HTML blocks and definitions are decided by '
                   'the block-grammar oracle and correspondence.')
     rule = ('documents from a block grammar (paragraph, header, fenced code, indented, quote paragraph, quote/division blocks nested to depth 3 '
             'with distinct delimiters and optional class names, HTML block, comments, definitions; 1-2 blank lines) in every safe mode; '
